@@ -93,8 +93,15 @@ class C13(Prop):
         by_weight = rng.random() < 0.7
         for kk in rng.sample(keys, rng.randint(0, len(keys))):
             tgt[kk] = fr(Fraction(rng.randint(-8, 8), 8) if by_weight else Fraction(rng.randint(-20, 20)))
-        c["ops"].append(["rebal", t + 10, int(by_weight), 1, int(rng.random() < 0.8), rng.choice(["0", "0", "1/50"]), tgt])
+        reb = ["rebal", t + 10, int(by_weight), 1, int(rng.random() < 0.8), rng.choice(["0", "0", "1/50"]), tgt]
+        c["ops"].append(reb)
         c["ops"].append(["nlv", 0])
+        if tgt and rng.random() < 0.25:
+            # the request object was executed by another account of the same exchange before the faults, and is the one
+            # now sent to the account under test: it must be judged against the books of this moment
+            first_fault = next((i for i, op in enumerate(c["ops"]) if (op[0] == "d" or op[0] == "q") and op[2] >= t), len(c["ops"]))
+            c["ops"].insert(first_fault, ["shadow_rebal", t - 5] + reb[2:7])
+            c["shadow"] = c.get("shadow") or "after"
         return c
 
     def run_impl(self, case):
